@@ -96,6 +96,10 @@ def one(ctx, i, tmpdir):
     rng = ctx.case_rng(i)
     min_ = gen_module(rng)
     mout = gen_module(rng)
+    if i % 6 == 4:
+        # input and output are two copies of the same module text (two versions of one file):
+        # an output address of a later pair may then be the input address of an earlier one
+        mout = copy.deepcopy(min_)
     in_src, out_src = min_["src"], mout["src"]
     in_tree, out_tree = ast.parse(in_src), ast.parse(out_src)
     evalmode = i % 7 == 3
@@ -130,7 +134,11 @@ def one(ctx, i, tmpdir):
         if not cand_out:
             break
         again = [l for l in cand_out if l.get("redeclared_in_block")]
-        ol = rng.choice(again) if again and rng.random() < 0.6 else rng.choice(cand_out)
+        chained = [l for l in cand_out if tuple(l["path"]) in {tuple(p_[0]) for p_ in pairs}]
+        if chained and rng.random() < 0.7:
+            ol = rng.choice(chained)
+        else:
+            ol = rng.choice(again) if again and rng.random() < 0.6 else rng.choice(cand_out)
         used_out.add(tuple(ol["path"]))
         pairs.append((list(ipath), list(ol["path"])))
         fi = loc_features(in_tree, il) if not evalmode else {"func_precedes": False, "depth": 1, "target_kind": "annassign"}
@@ -178,6 +186,7 @@ def one(ctx, i, tmpdir):
         "in_func_precedes": any(f[0]["func_precedes"] for f in feats), "out_func_precedes": any(f[1]["func_precedes"] for f in feats),
         "in_max_depth": max(f[0]["depth"] for f in feats), "out_max_depth": max(f[1]["depth"] for f in feats),
         "out_has_kwonly": any(f[1]["target_kind"] in ("kwarg", "method_kwarg") for f in feats),
+        "later_output_is_earlier_input_address": any(pairs[k][1] in [q[0] for q in pairs[:k]] for k in range(len(pairs))),
         "address_aliased_earlier": any(f.get("alias_before_target") or f.get("same_name_assigned_in_block_before") for pair in feats for f in pair),
         "out_name_assigned_again_in_block": any(l.get("redeclared_in_block") and l["path"] in [p[1] for p in pairs] for l in mout["locations"]),
     }
@@ -188,6 +197,8 @@ def one(ctx, i, tmpdir):
     ctx.feature("bad_input_address" if bad_input else ("bad_output_address" if bad_address else "resolvable"))
     base["bad_input"] = bad_input
     ctx.feature("pairs={}".format(len(pairs)))
+    if base["later_output_is_earlier_input_address"]:
+        ctx.feature("later_output_address_equals_earlier_input_address")
     if base["out_name_assigned_again_in_block"]:
         ctx.feature("output_target_assigned_again_in_a_block")
     ctx.feature("eval" if evalmode else "no_eval")
